@@ -349,6 +349,45 @@ pub fn gen_c12_data(sh: &mut Shards, o: &Opts) -> serde_json::Value {
             }
         }
     }
+    // accessors of the float kinds: what data(), data_mut(), into_data() and clone() expose of an accepted image
+    // (spec actions MutatePayload / IntoData / Clone of Yuvxyb.tla): ev = "acc"
+    for kind in ["rgb", "lin", "xyb", "hsl"] {
+        for (w, h) in [(1usize, 1usize), (3, 2), (5, 1), (4, 4)] {
+            let data: Vec<[f32; 3]> = (0..w * h).map(|_| [rng.unit() as f32, -(rng.unit() as f32), 2.0 * rng.unit() as f32]).collect();
+            let patch = [0.125f32, -7.5, 1e-20];
+            let at = (w * h) / 2;
+            macro_rules! acc {
+                ($mk:expr) => {{
+                    let img = $mk;
+                    let cl = img.clone();
+                    let seen: Vec<[f32; 3]> = img.data().to_vec();
+                    let mut m = img.clone();
+                    m.data_mut()[at] = patch;
+                    let after_mut: Vec<[f32; 3]> = m.data().to_vec();
+                    let clone_after: Vec<[f32; 3]> = cl.data().to_vec();
+                    let (mw, mh) = (m.width(), m.height());
+                    let into: Vec<[f32; 3]> = img.into_data();
+                    let mut s = String::new();
+                    let _ = write!(s, "\"ev\":\"acc\",\"kind\":\"{kind}\",\"w\":{w},\"h\":{h},\"at\":{},\"mw\":{mw},\"mh\":{mh},\"given\":", at + 1);
+                    list(&mut s, &data, px_bits);
+                    s.push_str(",\"patch\":");
+                    px_bits(&mut s, &patch);
+                    for (k, v) in [("seen", &seen), ("after_mut", &after_mut), ("clone_after", &clone_after), ("into", &into)] {
+                        let _ = write!(s, ",\"{k}\":");
+                        list(&mut s, v, px_bits);
+                    }
+                    sh.emit(&s);
+                    n_ev += 1;
+                }};
+            }
+            match kind {
+                "rgb" => acc!(Rgb::new(data.clone(), w, h, tc(13), cp(9)).expect("ctor")),
+                "lin" => acc!(LinearRgb::new(data.clone(), w, h).expect("ctor")),
+                "xyb" => acc!(Xyb::new(data.clone(), w, h).expect("ctor")),
+                _ => acc!(Hsl::new(data.clone(), w, h).expect("ctor")),
+            }
+        }
+    }
     std::panic::set_hook(prev);
     serde_json::json!({"events": n_ev, "calls": n_ev, "distinct": n_ev})
 }
